@@ -1,8 +1,5 @@
-(** Facts about DoneCb/Model.v that hold for EVERY schedule (no hypothesis on
-    the interleaving): the tie to the generated skeleton, and the safety half
-    of C18 -- a callback is invoked at most once per thread, only for a
-    thread that registered, only after that thread ended; close() returns only
-    after the monitor thread ended and reports the monitor's exception. *)
+(** The tie of DoneCb/Model.v to the generated skeleton, and lemmas about the
+    set / heap operations. *)
 From NL Require Import DoneCb.Model.
 From Coq Require Import Lia.
 
@@ -14,26 +11,33 @@ Proof. reflexivity. Qed.
 Lemma monitor_skeleton_ok : filter shared monitor_skeleton = monitor_prog.
 Proof. reflexivity. Qed.
 
-(** the program counters of the model enumerate monitor_prog in order *)
+(** the program counters of the model enumerate monitor_prog in order (the last entry of the
+    skeleton is the exception handler of the exit-check block, in which nothing can raise) *)
 Lemma mpc_order :
-  map mpc_access [MLoadScan; MGetIter 0; MIterNext; MIsAlive 0; MCallback; MLoadRebuild;
-                  MSetDiff 0; MStore 0; MLoadCheck; MTruth 0; MLoadClosed]
+  map mpc_access [MAcq1; MLoadScan; MGetIter 0; MIterNext; MIsAlive 0; MLoadRebuild; MSetDiff 0; MStore 0;
+                  MRel1; MCallback; MAcq2; MLoadCheck; MTruth 0; MLoadClosed; MRelBreak; MRelLoop; MRelExc]
+  ++ [Some LockRelease]
   = map Some monitor_prog.
 Proof. reflexivity. Qed.
 
-(** every monitor step performs the access of its program counter *)
+(** every monitor step performs the access of its program counter, unless it waits for the lock *)
 Lemma step_mon_access raises s :
   match mpc_access (m_pc s) with
-  | Some a => exists evs, snd (step_mon raises s) = OAcc a evs
+  | Some a => (exists evs, snd (step_mon raises s) = OAcc a evs)
+              \/ (a = LockAcquire /\ lock s <> None /\ step_mon raises s = (s, ODisabled))
   | None => snd (step_mon raises s) = ODisabled
   end.
 Proof.
   unfold step_mon, mon_exit. destruct (m_pc s); simpl; eauto.
-  - destruct (_ =? _); [destruct (m_todo s); [destruct (m_done s)|]|destruct (closer s)]; simpl; eauto.
+  - destruct (lock s); simpl; [right; intuition discriminate|eauto].
+  - destruct (_ =? _); [destruct (m_todo s)|]; simpl; eauto.
   - destruct (is_alive _); simpl; eauto.
   - destruct (m_cbs s); simpl; eauto.
+  - destruct (lock s); simpl; [right; intuition discriminate|eauto].
   - destruct (obj _ _); simpl; eauto.
-  - destruct (closed s); [destruct (closer s)|]; simpl; eauto.
+  - destruct (closed s); simpl; eauto.
+  - destruct (closer s); simpl; eauto.
+  - destruct (closer s); simpl; eauto.
 Qed.
 
 (** ---- sets *)
